@@ -41,6 +41,13 @@ func main() {
 		os.Exit(2)
 	}
 	prop := os.Args[1]
+	if prop == "_child" {
+		if f, ok := children[os.Args[2]]; ok {
+			f(os.Args[3:])
+			os.Exit(0)
+		}
+		os.Exit(97)
+	}
 	fs := flag.NewFlagSet("harness", flag.ExitOnError)
 	tier := fs.String("tier", "quick", "quick|thorough")
 	seed := fs.Int64("seed", 1, "seed")
